@@ -687,6 +687,13 @@ func (c *Channel) processInFlightQueue(t int64) bool {
 		if err != nil {
 			goto exit
 		}
+		if msg.pri > t {
+			// touched (or requeued and delivered again) since the look at the
+			// queue above: its hold has not run out after all
+			c.pushInFlightMessage(msg)
+			c.addToInFlightPQ(msg)
+			continue
+		}
 		atomic.AddUint64(&c.timeoutCount, 1)
 		c.RLock()
 		client, ok := c.clients[msg.clientID]
